@@ -65,6 +65,7 @@ func implJSON(v abs.Value) interface{} {
 }
 
 type vcase struct {
+	pad   int // informational: white space inserted after the first byte when the case was built
 	text  []byte
 	want  []abs.Value // by construction (nil for mutated texts)
 	valid bool
@@ -163,7 +164,7 @@ func vtext(args []string) error {
 		run.ParallelFor(len(cases), func(w, i int) {
 			c := &cases[i]
 			for _, cp := range []bool{true, false} {
-				cfg := run.Cfg{AVX512: avx512, Copy: cp, ND: *nd}
+				cfg := run.Cfg{AVX512: avx512, Copy: cp, ND: *nd, Pad: c.pad}
 				text := append([]byte{}, c.text...)
 				pj, err := run.Parse(text, cfg, nil)
 				o := outcome{ok: err == nil, cfg: cfg}
@@ -344,6 +345,17 @@ func sweepCases(r *rand.Rand) []vcase {
 			"[%s]", "[%s1]", "[1,%s2]", "[1%s,2]", "{%s\"a\":1}", "{\"a\"%s:1}", "{\"a\":%s1}", "{\"a\":1%s}", "%s[1]", "[1]%s", "[[]%s]", "[{}%s]", "[\"s\"%s]",
 			"[1%s2]", "[-%s]", "[1.%s]", "[1e%s]", "[1e+%s]", "[t%sue]", "[nul%s]", "[fals%s]", "[tru%s]"} {
 			add(strings.Replace(t, "%s", c, 1))
+		}
+		// the same byte in every 16-byte lane of a 64-byte block (the kernels use per-lane tables), between and after tokens
+		for _, lane := range []int{13, 29, 45, 61, 77, 125} {
+			for _, t := range []string{"[1,%s2]", "[true%s]", "{\"a\":1%s}", "[\"s\"%s]", "[%s]"} {
+				txt := strings.Replace(t, "%s", c, 1)
+				k := strings.Index(t, "%s")
+				if lane-k < 0 {
+					continue
+				}
+				out = append(out, vcase{text: run.Place([]byte(txt), lane-k), pad: lane - k})
+			}
 		}
 	}
 	return out
